@@ -14,4 +14,6 @@ CASES = [
     dict(expect="fire", desc="seed C21/3: value stored only after delegating the broadcast to Subject", names="B2-state-before-callout", edits=[dict(file="reactivex/subject/behaviorsubject.py",
          old="        with self.lock:\n            observers = self.observers.copy()\n            self.value = value\n\n        for observer in observers:\n            observer.on_next(value)\n",
          new="        super()._on_next_core(value)\n        with self.lock:\n            self.value = value\n")]),
+    dict(expect="fire", desc="seed C21-r4/1: the value broadcast hands out self.value instead of the pushed value", names="B2-state-before-callout", edits=[dict(file="reactivex/subject/behaviorsubject.py",
+         old="        for observer in observers:\n            observer.on_next(value)", new="        for observer in observers:\n            observer.on_next(self.value)")]),
 ]
